@@ -418,6 +418,19 @@ func cmdLock(jobs int) int {
 			}
 		}
 		s.solver.Solve(smtObs, false, 10, jobs)
+		for round := 0; round < 2; round++ {
+			var again []*Obligation
+			for _, ob := range smtObs {
+				if ob.Result == "error" && ob.vc != nil {
+					ob.Result, ob.Raw, ob.Backend = "", "", ""
+					again = append(again, ob)
+				}
+			}
+			if len(again) == 0 {
+				break
+			}
+			s.solver.Solve(again, false, 10, 2)
+		}
 		var names []string
 		for _, ob := range pr.obs {
 			if ob.Result == "unsat" {
